@@ -41,6 +41,25 @@ def gen_case(r, idx, env):
     c["container"] = {"entrypoint": None if r.random() < 0.4 else r.choice(HOSTILE), "command": cmd, "env": [[k, v] for k, v in cenv.items()],
                       "ports": sorted(set(r.choice([80, 8080, 1, 65535, 3000]) for _ in range(r.choice([0, 1, 2, 4])))), "mounts": [[s, t] for s, t in mounts.items()]}
     c["rebuild"] = r.random() < 0.4
+    # setters called more than once: the last call decides (builder methods replace / overwrite), nothing of the earlier value may leak
+    if r.random() < 0.35:
+        c["build"]["superseded"] = {"app_dir": r.choice([None, "fixtures/other app", "fixtures/app"]),
+                                    "buildpacks": r.choice([None, ["old/bp", "--old"], [r.choice(BUILDPACKS)]]),
+                                    "env": [[k, "OLD-" + r.choice(HOSTILE)] for k in r.sample(sorted(benv), min(len(benv), r.randint(0, 2)))]}
+    if r.random() < 0.35:
+        c["container"]["superseded"] = {"entrypoint": r.choice([None, "old-entry", "--rm"]) if c["container"]["entrypoint"] is not None else None,
+                                        "command": r.choice([None, ["old", "--cmd"]]) if cmd is not None else None,
+                                        "env": [[k, "OLD-" + r.choice(HOSTILE)] for k in r.sample(sorted(cenv), min(len(cenv), r.randint(0, 2)))],
+                                        "mounts": [[s_, "/old-target"] for s_ in r.sample(sorted(mounts), min(len(mounts), 1))]}
+    c["container"]["envs_split"] = r.random() < 0.5
+    # a rebuild with a configuration of its own: the second pack build carries that one, on the same image
+    if c["rebuild"] and r.random() < 0.4:
+        benv2 = {}
+        for _ in range(r.choice([0, 1, 3])):
+            benv2[r.choice(KEYS)] = r.choice(HOSTILE)
+        c["rebuild_cfg"] = {"builder": r.choice(["heroku/builder:24", "other/builder:22", "--builder"]), "app_dir": r.choice(["fixtures/app", "fixtures/other app"]),
+                            "buildpacks": [r.choice(BUILDPACKS) for _ in range(r.choice([0, 1, 3]))], "env": [[k, v] for k, v in benv2.items()],
+                            "preprocessor": None if r.random() < 0.5 else {"add": [["re.txt", "rebuilt"]], "remove": [], "append": []}, "expected": "success"}
     c["shell"] = r.choice(HOSTILE)
     c["exec"] = r.choice(HOSTILE)
     return c
@@ -82,7 +101,7 @@ def run_case(env, c, sh):
     scenario = {"builds": [{"config": c["build"], "body": [{"op": "run_shell_command", "command": c["shell"]},
                                                             {"op": "start_container", "config": c["container"], "body": [{"op": "shell_exec", "command": c["exec"]}] +
                                                              ([{"op": "address_for_port", "port": c["container"]["ports"][0]}] if c["container"]["ports"] else [])}] +
-                            ([{"op": "rebuild", "reuse_config": True, "config": c["build"], "body": []}] if c.get("rebuild") else [])}]}
+                            ([{"op": "rebuild", "reuse_config": not c.get("rebuild_cfg"), "config": c.get("rebuild_cfg") or c["build"], "body": []}] if c.get("rebuild") else [])}]}
     app_abs = os.path.realpath(c["build"]["app_dir"] if os.path.isabs(c["build"]["app_dir"]) else os.path.join(env.crate, c["build"]["app_dir"]))
     before = fixture_digest(app_abs)
     case = {"idx": c["idx"], "case": c}
@@ -115,7 +134,21 @@ def run_case(env, c, sh):
         sh.violation("pack-build-count", "%s: %d pack build invocations" % (what, len(builds)), case)
         return
     cfg = c["build"]
-    if c.get("rebuild"):
+    if c.get("rebuild_cfg"):
+        cfg2 = c["rebuild_cfg"]
+        b2, raw2 = builds[1], log[builds[1]["seq"]]
+        app2 = os.path.realpath(os.path.join(env.crate, cfg2["app_dir"]))
+        base2 = fixture_digest(app2)
+        want2 = base2 if cfg2["preprocessor"] is None else apply_pre(base2, cfg2["preprocessor"])
+        got = (b2["image"], b2["builder"], b2["buildpacks"], sorted(b2["env"]))
+        exp = (builds[0]["image"], cfg2["builder"], cfg2["buildpacks"], sorted((k, v) for k, v in cfg2["env"]))
+        if got != exp:
+            sh.violation("rebuild:own-config", "%s: rebuild with its own configuration: pack build decodes to %r, expected %r (argv %r)" % (what, got, exp, raw2["argv"]), case)
+            return
+        if sorted(raw2["path_digest"]) != sorted(want2) or (cfg2["preprocessor"] is None) != (os.path.realpath(b2["path"] or "") == app2):
+            sh.violation("rebuild:own-config-path", "%s: rebuild with its own configuration: --path %r holds %r, expected %r" % (what, b2["path"], sorted(raw2["path_digest"])[:6], sorted(want2)[:6]), case)
+            return
+    elif c.get("rebuild"):
         # the rebuild (with the first build's own configuration) must look exactly like the first build: same image, same options,
         # and - with a preprocessor - a fresh private copy with the edits applied once
         b2, raw2 = builds[1], log[builds[1]["seq"]]
@@ -216,7 +249,7 @@ def shard_run(arg):
 
 def run(tier, seed, work):
     res = vp.Result("C17", tier, seed, "exploration")
-    n = 4000 if tier == "quick" else 30000
+    n = 4000 if tier == "quick" else 90000
     for d in vp.pmap(shard_run, [(seed, s, work) for s in vp.split(range(n), vp.NCPU)]):
         res.merge(d)
     res.rule = ("evaluations = scenarios (one pack build, one detached docker run, one run_shell_command, one shell_exec each) whose logged argv was decoded and compared. distinct_nontrivial = distinct "
